@@ -23,6 +23,32 @@ type seqHooks struct {
 	restarted func(e *Env, st *model.State, before, after *lungo.Catalog)
 	// called at the end of the run inside the client task
 	final func(e *Env, st *model.State)
+	// called for every commit (inside the committing task); may queue model updates with e.defer
+	commit func(e *Env, c *CommitRec)
+}
+
+// deferred is a model update caused by a commit of another task (expiry pass):
+// it is applied to the model in commit order when the client synchronises.
+type deferred struct {
+	seq int
+	fn  func(st *model.State)
+}
+
+func (e *Env) deferModel(seq int, fn func(st *model.State)) {
+	e.deferredOps = append(e.deferredOps, deferred{seq, fn})
+}
+
+// syncModel applies the deferred updates with seq < upTo (all if upTo < 0).
+func (e *Env) syncModel(st *model.State, upTo int) {
+	var rest []deferred
+	for _, d := range e.deferredOps {
+		if upTo < 0 || d.seq < upTo {
+			d.fn(st)
+		} else {
+			rest = append(rest, d)
+		}
+	}
+	e.deferredOps = rest
 }
 
 // monitors installs the cheap invariants that every run evaluates on every
@@ -46,12 +72,22 @@ func execSeq(t *testing.T, plan *Plan, h seqHooks) *Outcome {
 		e.monitors()
 		sim := e.sim
 		st := model.New()
+		var client *actor
+		e.onCommit = append(e.onCommit, func(c *CommitRec) {
+			if client != nil && c.Task == client.t {
+				client.pendingCommits = append(client.pendingCommits, c.Seq)
+			}
+			if h.commit != nil {
+				h.commit(e, c)
+			}
+		})
 		sim.Go("client", false, func(task *simrt.Task) {
 			if err := e.open(); err != nil {
 				e.out.Harness = "open failed: " + err.Error()
 				return
 			}
 			a := &actor{e: e, t: task}
+			client = a
 			for i := range plan.Tasks[0].Ops {
 				op := &plan.Tasks[0].Ops[i]
 				if e.failed() {
@@ -60,6 +96,7 @@ func execSeq(t *testing.T, plan *Plan, h seqHooks) *Outcome {
 				switch op.K {
 				case "sleep", "clock":
 					a.exec(op)
+					e.syncModel(st, -1)
 					continue
 				case "restart":
 					if e.out.Faults["store-after"] > 0 {
@@ -104,7 +141,24 @@ func execSeq(t *testing.T, plan *Plan, h seqHooks) *Outcome {
 						e.probe("store-fault-call")
 						continue
 					}
-					want := applyModel(st, op, &c.Res, now, lastIDOf(after, op))
+					// commits of other tasks (expiry passes) are applied to the model in commit order
+					var want model.Res
+					if len(c.Commits) > 0 {
+						e.syncModel(st, c.Commits[0])
+						want = applyModel(st, op, &c.Res, now, lastIDOf(after, op))
+					} else {
+						// no commit of its own: the call saw the state before or after any pass that ran meanwhile
+						for {
+							tmp := st.Clone()
+							want = applyModel(tmp, op, &c.Res, now, lastIDOf(after, op))
+							if diffRes(op.K, want, c.Res) == "" || len(e.deferredOps) == 0 {
+								break
+							}
+							e.syncModel(st, e.deferredOps[0].seq+1)
+						}
+						want = applyModel(st, op, &c.Res, now, lastIDOf(after, op))
+					}
+					e.syncModel(st, -1)
 					if d := diffRes(op.K, want, c.Res); d != "" {
 						e.violate(attribute(h.prop, "result-mismatch", op, want, c.Res, fmt.Sprintf("%s: %s (impl error: %v)", opStr(op), d, c.Err)))
 						return
@@ -173,6 +227,10 @@ func attribute(prop, class string, op *Op, want, got model.Res, detail string) *
 	case "C15":
 		if isIndexOp(op.K) {
 			return violation("C15", "index-management", op.K, detail)
+		}
+	case "C19":
+		if op.K == "createIndex" && op.TTL != nil {
+			return violation("C19", "ttl-index-definition", "", detail)
 		}
 	case "C02":
 		if want.Err != "" || got.Err != "" {
